@@ -929,8 +929,12 @@ public:
         readPosition += sizeof(uint32_t);
       }
     } else if (version == 2) {
-      graphFile.read(reinterpret_cast<char*>(edgeDst.data()),
+      // version 2 stores 64-bit destinations; edgeDst holds 32-bit node ids
+      std::vector<uint64_t> dst64(numEdges);
+      graphFile.read(reinterpret_cast<char*>(dst64.data()),
                      sizeof(uint64_t) * numEdges);
+      for (uint64_t e = 0; e < numEdges; ++e)
+        edgeDst[e] = static_cast<uint32_t>(dst64[e]);
       readPosition =
           ((4 + numNodes) * sizeof(uint64_t) + numEdges * sizeof(uint64_t));
       // version 2 has no pad word after the (already 8-byte aligned)
@@ -1001,8 +1005,12 @@ public:
       graphFile.read(reinterpret_cast<char*>(edgeDst.data()),
                      sizeof(uint32_t) * numEdges);
     } else if (version == 2) {
-      graphFile.read(reinterpret_cast<char*>(edgeDst.data()),
+      // version 2 stores 64-bit destinations; edgeDst holds 32-bit node ids
+      std::vector<uint64_t> dst64(numEdges);
+      graphFile.read(reinterpret_cast<char*>(dst64.data()),
                      sizeof(uint64_t) * numEdges);
+      for (uint64_t e = 0; e < numEdges; ++e)
+        edgeDst[e] = static_cast<uint32_t>(dst64[e]);
     } else {
       GALOIS_DIE("unknown file version: ", version);
     }
